@@ -12,6 +12,8 @@ from .. import evidence, findings, gen, par, tlc
 from ..shims import import_dclab
 
 PID = "C02"
+SRCLOG = ["first", "second line",
+          "°C " + "µ" * 68 + " (more bytes than characters)"]
 KINDS = ("hdf5", "dict", "lazy", "child", "basin")
 
 
@@ -45,7 +47,7 @@ def build_source(kind, n, root):
         p = root / ("src_%d.rtdc" % n)
         if not p.exists():
             gen.write_rtdc(p, list(range(1, n + 1)), feats=FEATS_FILE,
-                           logs={"srclog": ["first", "second line"]},
+                           logs={"srclog": SRCLOG},
                            tables={"srctab": {"a": np.arange(4.0),
                                               "b": np.arange(4.0) + 7}})
         return dclab.new_dataset(p), list(range(1, n + 1)), list(FEATS_FILE)
@@ -181,8 +183,7 @@ def _replay(job):
                 if kind == "hdf5":
                     # (the exporter may prefix the names)
                     lg = [k for k in ex.logs.keys() if k.endswith("srclog")]
-                    if not lg or list(ex.logs[lg[0]]) != ["first",
-                                                          "second line"]:
+                    if not lg or list(ex.logs[lg[0]]) != SRCLOG:
                         out.append(("logs not carried over", str(
                             list(ex.logs.keys()))))
                     tb = [k for k in ex.tables.keys()
